@@ -1,5 +1,6 @@
 //! C05 helpers: parsing, formatting and hashing of the restricted integer types, generic over
 //! the type (instantiated per newtype found in /repo by lib/gen.py).
+use crate::check;
 use crate::nd::Nd;
 use crate::witness;
 use core::fmt::Write;
@@ -78,12 +79,12 @@ pub fn parse_all<N: Nd, T: core::str::FromStr + Copy>(
     let expect_ok = valid && val <= max;
     match r {
         Ok(v) => {
-            assert!(get(v) <= max, "C04 C05 parse yields an in-range value");
-            assert!(expect_ok, "C04 C05 parse accepts only unsigned decimal numerals in range");
-            assert!(get(v) == val, "C05 parse yields the numeral's value");
+            check!(get(v) <= max, "C04 C05 parse yields an in-range value");
+            check!(expect_ok, "C04 C05 parse accepts only unsigned decimal numerals in range");
+            check!(get(v) == val, "C05 parse yields the numeral's value");
         }
         Err(_) => {
-            assert!(!expect_ok, "C04 C05 parse rejects only non-numerals and out-of-range values");
+            check!(!expect_ok, "C04 C05 parse rejects only non-numerals and out-of-range values");
         }
     }
     witness!(nd, r.is_ok() && len == maxlen && buf[0] == b'+', "accepted '+' numeral of full length");
@@ -120,19 +121,19 @@ pub fn display_one<N: Nd, T: core::fmt::Display>(nd: &mut N, v: T, value: u32) {
         overflow: false,
     };
     let r = write!(buf, "{}", v);
-    assert!(r.is_ok() && !buf.overflow, "C05 Display succeeds");
-    assert!(buf.n >= 1 && buf.n <= 5, "C05 Display prints 1 to 5 characters");
+    check!(r.is_ok() && !buf.overflow, "C05 Display succeeds");
+    check!(buf.n >= 1 && buf.n <= 5, "C05 Display prints 1 to 5 characters");
     let mut val: u32 = 0;
     let mut j = 0;
     while j < 8 {
         if j < buf.n {
             let b = buf.b[j];
-            assert!(b >= b'0' && b <= b'9', "C05 Display prints digits only");
+            check!(b >= b'0' && b <= b'9', "C05 Display prints digits only");
             val = val * 10 + (b - b'0') as u32;
         }
         j += 1;
     }
-    assert!(val == value, "C05 Display prints the decimal value");
-    assert!(buf.n == 1 || buf.b[0] != b'0', "C05 Display prints no leading zero");
+    check!(val == value, "C05 Display prints the decimal value");
+    check!(buf.n == 1 || buf.b[0] != b'0', "C05 Display prints no leading zero");
     witness!(nd, buf.n >= 2, "two or more digits");
 }
